@@ -190,7 +190,7 @@ package aws
 //@   invariant forall s string :: TERMs[s] && !old(TERMs)[s] ==> inIds(s, instances)
 //@   invariant forall s string :: old(TERMs)[s] ==> TERMs[s]
 //@   invariant forall k :: old(Jlen) <= k && k < Jlen ==> Jkind[k] == A_TERM
-//@   invariant base(instanceIds) == nil || birth(base(instanceIds)) >= entry(now)
 //@ loop #1
-//@   invariant len(instanceIds) == entry(len(instanceIds)) + #i && (base(instanceIds) == nil || birth(base(instanceIds)) >= entry(now) || base(instanceIds) == entry(base(instanceIds)))
-//@   invariant forall j :: 0 <= j && j < #i ==> instanceIds[entry(len(instanceIds)) + j] == deref(batch[j])
+//@   modifies elems(instanceIds)
+//@   invariant len(instanceIds) == #i && base(instanceIds) == entry(base(instanceIds)) && off(instanceIds) == 0 && cap(instanceIds) == len(batch)
+//@   invariant forall j :: 0 <= j && j < #i ==> instanceIds[j] == deref(batch[j])
